@@ -1,6 +1,7 @@
 #!/bin/sh
 # Runs every filed seeded change against the quick check of its property, in a
 # scratch worktree (never /repo itself), and writes seeded/RESULTS.md.
+# HARMLESS=1 SEED_GLOB='harmless/C*' SEED_OUT=seeded/RESULTS_harmless.md: behaviour-preserving changes (exit 1 = false alarm).
 cd /verif
 wt=/tmp/seedmx_$$
 git -C /repo worktree add -q --detach "$wt" HEAD || exit 3
@@ -20,7 +21,10 @@ for d in seeded/${SEED_GLOB:-C*-*m*}; do
   VERIF_EVIDENCE_DIR=/tmp/seedmx_ev VERIF_REPO="$wt" ./bin/symgo check --spec checks/$prop.json --tier "$tier" --no-selftest > /tmp/seedmx_out_$$ 2>&1
   rc=$?
   first=$(grep -A1 -m1 "^VIOLATION" /tmp/seedmx_out_$$ | tail -1 | sed 's/|/\\|/g' | cut -c1-160)
+  if [ -n "$HARMLESS" ]; then case $rc in 1) oc="FALSE-ALARM";; 0) oc="quiet";; *) oc="inconclusive(rc=$rc)"; first=$(grep -m1 "^INCONCLUSIVE\|^ENCODING\|^STALE" /tmp/seedmx_out_$$ | cut -c1-160);; esac
+  else
   case $rc in 1) oc="caught";; 0) oc="MISSED";; *) oc="inconclusive(rc=$rc)"; first=$(grep -m1 "^INCONCLUSIVE\|^ENCODING" /tmp/seedmx_out_$$ | cut -c1-160);; esac
+  fi
   echo "| $name | $prop | $oc | $first |" >> "$out.tmp"
   echo "$name $oc"
 done
